@@ -132,7 +132,10 @@ func runStandin(p *Prog, sd standin) map[string]interface{} {
 		}
 	}
 	res["cases"] = cases
-	res["passed"] = runErr == nil && len(fails) == 0 && strings.Contains(string(out), "ok")
+	res["passed"] = runErr == nil && len(fails) == 0 && strings.Contains(string(out), "ok") && cases > 0
+	if cases == 0 && runErr == nil {
+		res["error"] = "vacuous: the harness reported no case (VF-CASES line missing or 0)"
+	}
 	if len(fails) > 0 {
 		res["failing_inputs"] = fails
 	}
